@@ -79,6 +79,8 @@ var Strings = []strForm{
 	{"'abc'", "abc"}, {"''", ""}, {"'it''s'", "it's"}, {"'a b  c'", "a b  c"}, {"'select from'", "select from"}, {"'-- not a comment'", "-- not a comment"},
 	{"'/* nor this */'", "/* nor this */"}, {"'a\\\\b'", "a\\b"}, {"'tab\\tx'", "tab\tx"}, {"'nl\\nx'", "nl\nx"}, {"'q\\'x'", "q'x"}, {"'dq\"x'", "dq\"x"},
 	{"'two\nlines'", "two\nlines"}, {"'héllo wörld'", "héllo wörld"}, {"'日本語'", "日本語"}, {"'100%'", "100%"}, {"'$1'", "$1"}, {"';'", ";"},
+	// typographic quotes delimit strings too; a doubled closing quote stands for one apostrophe
+	{"\u2018abc\u2019", "abc"}, {"\u2018it\u2019\u2019s\u2019", "it's"}, {"'it'\u2019s'", "it's"}, {"\u2018a\u2019\u2019\u2019", "a'"},
 }
 
 var QIdents = []strForm{{`"a\tb"`, `a\tb`}, {`"C:\data"`, `C:\data`}, {`"dom\user"`, `dom\user`}, {`"100\%"`, `100\%`}, {`"back\\slash"`, `back\\slash`}, {`"abc"`, "abc"}, {`"Mixed Case"`, "Mixed Case"}, {`"select"`, "select"}, {`"a""b"`, `a"b`}, {`"from"`, "from"}, {`"naïve col"`, "naïve col"}, {`"a.b"`, "a.b"}, {`"it's"`, "it's"}}
@@ -165,7 +167,7 @@ func munchOps(s string) []string {
 }
 
 // Separator classes.
-var SepNames = []string{"none", "space", "spaces", "tab", "newline", "crlf", "blank-line", "line-comment", "block-comment", "empty-block-comment", "comment-mix", "block-comment-odd", "line-comment-odd", "tab-comment-tab"}
+var SepNames = []string{"none", "space", "spaces", "tab", "newline", "crlf", "blank-line", "line-comment", "block-comment", "empty-block-comment", "comment-mix", "block-comment-odd", "line-comment-odd", "tab-comment-tab", "lone-cr"}
 
 // BlockBodies / LineBodies are the unusual comment spellings used by the *-odd separator kinds; Rot rotates through them.
 var BlockBodies = []string{"/***/", "/** doc **/", "/* a*b */", "/* * / */", "/*/ x */", "/* -- */", "/* ' \" ` */", "/* multi\n * line\n **/", "/****/", "/* ;; */", "/* é 日本 */", "/* $1 $$ */", "/*\t*/", "/* **/"}
@@ -206,6 +208,8 @@ func sepText(kind int, n int) (string, []string) {
 	case 13:
 		c := "/* t" + string(rune('a'+n%26)) + " */"
 		return "\t" + c + "\t", []string{c}
+	case 14:
+		return "\r", nil // a carriage return on its own is a blank, not a line break
 	}
 	return "", nil
 }
